@@ -1,0 +1,16 @@
+//go:build verif
+
+package genetics
+
+import "github.com/yaricom/goNEAT/v4/neat/network"
+
+// Wrappers of the two ordered-insertion helpers for the verification harness (properties C01, C05). Add-only;
+// nothing here is reachable from the library itself.
+
+// VGeneInsert is geneInsert
+func VGeneInsert(genes []*Gene, g *Gene) []*Gene { return geneInsert(genes, g) }
+
+// VNodeInsert is the package-level nodeInsert
+func VNodeInsert(nodes []*network.NNode, n *network.NNode) []*network.NNode {
+	return nodeInsert(nodes, n)
+}
